@@ -46,6 +46,21 @@ deleted construct is a violated instance:
  I1     a released relation is not listed as incomplete: RelationsDatabase::remove releases the stash item and then
         invalidates the handle; for_each_relation visits every position and calls back only for valid handles;
         for_each_incomplete_relation forwards to it
+ L1     lost update (all classes of the anchor set: members/relations database, handle, managers, ItemStash and its
+        cleanup_helper, CallbackBuffer): a local initialised from a call that returns a non-const lvalue reference (or a
+        std container element) and then written must be a reference, unless the written value is read again: otherwise
+        the update never reaches the storage the call designated (ItemStash::remove_item's index slot,
+        RelationsDatabase::remove's element)
+ I2     ItemStash index: remove_item stores a constant (the removed marker) exactly once into an element of the stash's
+        index vector -- through reference locals / the reference-returning accessor, not into a copy; the garbage-
+        collection callback stores the new offset into an element of the index it holds BY REFERENCE; garbage_collect
+        binds it to the stash's own index
+ G1     retrievability: every condition evaluated on a path to a `return nullptr` of get_object() is either "found range
+        is empty" or "the object handle stored in the found range is invalid"; a condition reading the removed mark of
+        ONE (member, relation) entry is a violation (removal is per entry, retrievability per member: members stay
+        available until the last relation needing them completed); any other condition is analysis-broken; the
+        non-null answer is the stash item of the handle stored in the found range; MembersDatabase<T>::get forwards
+        get_object(id) unconditionally
  C1 [2] the member counter: starts at 0 in RelationsDatabase::add (which returns the handle of the element just pushed),
         increment is ++, decrement is --, has_all_members is == 0, all on RelationsDatabase::members(m_pos)
 
@@ -72,7 +87,7 @@ follows the callback" is implemented in the weaker inter-procedural form stated 
 handle_complete_relation is redundant with the one every second-pass handler performs after add().
 """
 from ..c11_util import (Collector, call_edge_filter, elem_loops, inline_calls, loop_contains, calls, can_follow, counts_from_zero_by_one, every_path_passes, exactly_once, guard_conds, live,
-                        nonzero_guarded, origin, param_root, subtree_calls, var_edge_filter, zero_test)
+                        nonzero_guarded, origin, param_root, root_through_refs, subtree_calls, var_edge_filter, zero_test)
 from ..flow import describe_path
 from .. import sorted as S
 
@@ -787,7 +802,7 @@ def remove_rules(fb, R, M):
                 srcs = [r['id']] + [o['id'] for o in (origin(fn, a) for a in r.get('args', []) if a is not None) if o is not None]
                 hs = [fn.nodes[x] for sid in srcs for x in fn.subtree(sid) if fn.nodes[x].get('k') == 'member' and fn.nodes[x].get('field')
                       and fn.nodes[x].get('q', '').startswith(M.elem + '::') and S.plain_name(fn.nodes[x].get('t', '')) == STASH + '::handle_type']
-                ok = ok and bool(hs) and all(fn.root_var(h['id']) == rroot for h in hs)
+                ok = ok and bool(hs) and all(root_through_refs(fn, h['id']) == rroot for h in hs)
             R.check(ok, 'R1-release-only-last-reference', q + '#releases-the-handle-of-the-found-range', fn.site,
                     'the stash item released must be the object handle stored in the found range')
             # ---- R3
@@ -1426,10 +1441,371 @@ def counter_rules(fb, R, M):
         R.broken('%s::add not found' % RDB)
 
 
+# ================================================================================================ lost updates / stash index
+
+STD_ELEMENT_ACCESS = ('operator[]', 'at', 'front', 'back')
+
+
+def _returns_mutable_ref(fb, fn, c):
+    """The call node c yields a non-const lvalue reference into storage owned elsewhere."""
+    if c is None or c.get('k') != 'call' or 'q' not in c:
+        return False
+    gs = [g for g in fb.by_usr.get(c.get('u'), [])]
+    if gs:
+        t = gs[0].retC.strip()
+        return t.endswith('&') and not t.endswith('&&') and not t.startswith('const ') and ' const &' not in t
+    q = c['q']
+    if q.startswith(('std::vector::', 'std::deque::', 'std::array::')) and q.rsplit('::', 1)[-1] in STD_ELEMENT_ACCESS and c.get('recv') is not None:
+        rt = (fn.sn(c['recv']) or {}).get('t', '')
+        return not rt.strip().startswith('const ')
+    return False
+
+
+def _init_call(fn, init):
+    """The call a local is initialised from, looking through value copies / lvalue-to-rvalue conversions only."""
+    n = fn.sn(init)
+    g = 0
+    while n is not None and n.get('k') == 'construct' and (n.get('copymove') or n.get('elidable')) and len(n.get('args', [])) == 1 and g < 4:
+        n = fn.sn(n['args'][0])
+        g += 1
+    return n if n is not None and n.get('k') == 'call' else None
+
+
+def _writes_to_var(fn, d):
+    """[(write node, element id)] assignments / ++ / compound assignments whose target is the local d or a field of it."""
+    out = []
+    for n in fn.all_nodes():
+        k = n.get('k')
+        tgt = None
+        if k == 'assign':
+            tgt = n['lhs']
+        elif k == 'unop' and n.get('op') in ('++', '--'):
+            tgt = n['sub']
+        elif k == 'call' and n.get('op') in ('=', '+=', '-=', '*=', '/=', '|=', '&=', '^=', '<<=', '>>=', '++', '--') and n.get('recv') is not None:
+            tgt = n['recv']
+        if tgt is None:
+            continue
+        x = tgt
+        hops = 0
+        while x is not None and x in fn.nodes and hops < 20:       # the variable itself or a (nested) field of it
+            hops += 1
+            m = fn.nodes[x]
+            if m.get('k') in ('wrap', 'icast'):
+                x = m.get('sub')
+            elif m.get('k') == 'member' and m.get('field') and not m.get('arrow'):
+                x = m.get('base')
+            else:
+                break
+        m = fn.nodes.get(x) if x is not None else None
+        if m is not None and m.get('k') == 'var' and m.get('d') == d:
+            out.append((n, m['id']))
+    return out
+
+
+def _read_after(fn, d, write, target_var_node):
+    """Some path from the write reaches another mention of the local (a read, or a further write that itself is read)."""
+    from ..flow import path_search
+    uses = {n['id'] for n in fn.all_nodes() if n.get('k') == 'var' and n.get('d') == d and n['id'] != target_var_node}
+    if not uses:
+        return False
+    return path_search(fn, write['id'], lambda e: e in uses, lambda e: False) is not None
+
+
+def family_functions(fb):
+    fam = {MDC, MD, RDB, RH, RMB, RM, STASH, STASH + '::cleanup_helper', 'osmium::memory::CallbackBuffer'} | {r.q for r in fb.derived_from(RMB)}
+    return [f for f in fb.functions if f.has_cfg and (f.cls in fam or (f.is_lambda and any(f.q.startswith(c + '::') for c in fam)))]
+
+
+def lost_update_rules(fb, R, M):
+    """L1: a local initialised from a call that returns a non-const lvalue reference and then written must BE a reference
+    (or its value must be read after the write): otherwise the update never reaches the storage the call designated."""
+    lost_update_check(fb, R, family_functions(fb))
+
+
+def lost_update_check(fb, R, fns):
+    for fn in fns:
+        for dn in fn.all_nodes():
+            if dn.get('k') != 'decl':
+                continue
+            for v in dn['vars']:
+                if not isinstance(v.get('init'), int):
+                    continue
+                c = _init_call(fn, v['init'])
+                if c is None or not _returns_mutable_ref(fb, fn, c):
+                    continue
+                t = v['tC'].strip()
+                if t.endswith('*'):
+                    continue
+                ws = _writes_to_var(fn, v['d'])
+                if not ws:
+                    continue
+                key = '%s#write-through-%s' % (fn.q, c['q'].rsplit('::', 1)[-1])
+                if t.endswith('&') and not t.startswith('const '):
+                    R.ok('L1-write-reaches-storage', key, fn.loc(dn['id']))
+                    continue
+                lost = [w for (w, tv) in ws if not _read_after(fn, v['d'], w, tv)]
+                R.check(not lost, 'L1-write-reaches-storage', key, fn.loc(lost[0]['id']) if lost else fn.loc(dn['id']),
+                        'local `%s` is a COPY of the object %s() refers to; the value written to it in %s is never read again and never '
+                        'reaches that object (declare it as a reference)' % (v['name'], c['q'].rsplit('::', 1)[-1], fn.q))
+
+
+def _storage_of(fb, fn, nid, depth=0):
+    """Where a store through lvalue expression nid lands: ('field', qualified container field) when it is an element of a
+    container member (directly, through reference locals or through reference-returning accessors of the same object),
+    ('copy', text) when it lands in a local copy, None when unknown."""
+    n = fn.sn(nid)
+    if n is None or depth > 6:
+        return None
+    if n.get('k') == 'var' and n.get('vk') == 'local':
+        decl = None
+        for m in fn.all_nodes():
+            if m.get('k') == 'decl':
+                for v in m['vars']:
+                    if v['d'] == n['d']:
+                        decl = v
+        if decl is None or not isinstance(decl.get('init'), int):
+            return None
+        if not decl['tC'].strip().endswith('&'):
+            return ('copy', 'local `%s` is declared by value' % decl['name'])
+        return _storage_of(fb, fn, decl['init'], depth + 1)
+    if n.get('k') == 'call' and n.get('q', '').rsplit('::', 1)[-1] in STD_ELEMENT_ACCESS and n.get('recv') is not None:
+        r = fn.sn(n['recv'])
+        if r is not None and r.get('k') == 'member' and r.get('field') and fn.is_this_member(n['recv']):
+            return ('field', r['q'])
+        return None
+    if n.get('k') == 'call' and n.get('u') and (n.get('recv') is None or (fn.sn(n['recv']) or {}).get('k') == 'this'):
+        res = set()
+        for g in fb.by_usr.get(n['u'], [])[:1]:
+            if not g.retC.strip().endswith('&'):
+                return ('copy', '%s returns by value' % g.q)
+            for r in g.all_nodes():
+                if r.get('k') == 'return' and 'sub' in r:
+                    res.add(_storage_of(fb, g, r['sub'], depth + 1))
+        return list(res)[0] if len(res) == 1 else None
+    return None
+
+
+def stash_rules(fb, R, M):
+    """I2: ItemStash::remove_item invalidates the index slot of the released item; the garbage-collection callback writes
+    the new offset into the index it was bound to."""
+    rec = fb.record(STASH)
+    if rec is None:
+        R.broken('record %s not found' % STASH)
+        return
+    idx = [f for f in rec.fields if f['tC'].startswith('std::vector<') and S.is_scalar(S.element_type(f['tC']) or '')]
+    if len(idx) != 1:
+        R.broken('%s: cannot identify the index vector member' % STASH)
+        return
+    idx_q = idx[0]['q']
+    # the release routine: marks a buffer item removed
+    rel = [f for f in fb.functions if f.cls == STASH and f.has_cfg and calls(f, 'osmium::memory::Item::set_removed')]
+    if not rel:
+        R.broken('%s: no method marking a stash item removed (remove_item) found' % STASH)
+    via = [f for (f, _v) in M.proto._callers_on_this({f.usr for f in rel}).values() if f.cls == STASH and not f.is_lambda]
+    for fn0 in _tops(rel + via):
+        def body(fn, R):
+            stores = []
+            why = None
+            for n in fn.all_nodes():
+                if n.get('k') != 'assign' or n.get('op') != '=' or fn.const_value(n['rhs']) is None:
+                    continue
+                st = _storage_of(fb, fn, n['lhs'])
+                if st is not None and st[0] == 'field' and st[1] == idx_q:
+                    stores.append(n['id'])
+                elif st is not None and st[0] == 'copy':
+                    l = fn.sn(n['lhs'])
+                    init = _decl_init(fn, l['d']) if l is not None and l.get('k') == 'var' else None
+                    c = _init_call(fn, init) if init is not None else None
+                    if c is not None and _storage_of(fb, fn, c['id']) == ('field', idx_q):
+                        why = 'the removed-marker is stored into a copy of the index slot (%s): the slot keeps the old offset and a later ' \
+                              'garbage collection re-targets it to a live item' % st[1]
+            once = exactly_once(fn, stores) if stores else (why or 'no constant is stored into the index slot of the released item')
+            R.check(once is None, 'I2-stash-index-maintained', fn.q + '#index-slot-invalidated', fn.site, 'remove_item: %s' % once)
+        per_fn(fb, R, M, fn0, body)
+    # moving callback
+    hrec = fb.record(STASH + '::cleanup_helper')
+    cbs = [f for f in fb.functions if f.cls == STASH + '::cleanup_helper' and f.has_cfg and f.kind == 'method' and len(f.params) == 2]
+    if hrec is None or not cbs:
+        R.broken('%s::cleanup_helper / its moving callback not found' % STASH)
+        return
+    for fn in cbs:
+        href = [f for f in hrec.fields if f['tC'].startswith('std::vector<')]
+        stores = []
+        for n in fn.all_nodes():
+            if n.get('k') == 'assign' and n.get('op') == '=' and fn.root_var(n['rhs']) == param_root(fn, 1) and (fn.sn(n['rhs']) or {}).get('k') == 'var':
+                st = _storage_of(fb, fn, n['lhs'])
+                if st is not None and st[0] == 'field' and href and st[1] == href[0]['q']:
+                    stores.append(n['id'])
+        why = exactly_once(fn, stores) if stores else 'the new offset is not stored into an element of the index'
+        isref = bool(href) and href[0]['tC'].strip().endswith('&') and not href[0]['tC'].strip().startswith('const ')
+        R.check(why is None and isref, 'I2-stash-index-maintained', fn.q + '#new-offset-written-into-the-bound-index', fn.site,
+                'moving callback: %s' % (why or 'the helper holds a copy of the index, not a reference to it'))
+    for fn in fb.fns(STASH + '::garbage_collect'):
+        cons = [n for n in fn.all_nodes() if n.get('k') == 'construct' and n.get('q') == STASH + '::cleanup_helper::(ctor)' and not n.get('copymove')]
+        ok = len(cons) == 1 and cons[0].get('args') and fn.root_var(cons[0]['args'][0]) == ('field', idx_q, idx[0]['name'])
+        if ok:
+            ctor = [g for g in fb.fns(STASH + '::cleanup_helper::(ctor)') if len(g.params) == 1]
+            src = S.ctor_field_sources(fb, ctor[0]) if ctor else {}
+            ok = any(v == ('param', 0) for v in src.values()) and ctor[0].params[0]['tC'].strip().endswith('&')
+        R.check(ok, 'I2-stash-index-maintained', fn.q + '#helper-bound-to-the-index', fn.site,
+                'garbage_collect must hand the stash\'s own index vector (by reference) to the moving callback')
+
+
+def _decl_init(fn, d):
+    for m in fn.all_nodes():
+        if m.get('k') == 'decl':
+            for v in m['vars']:
+                if v['d'] == d and isinstance(v.get('init'), int):
+                    return v['init']
+    return None
+
+
+# ================================================================================================ retrievability
+
+def _leaves(fn, cid, out, depth=0):
+    """Leaf conditions of a boolean expression (through !, &&, ||, bool casts and named bool locals)."""
+    n = fn.sn(cid)
+    hops = 0
+    while n is not None and n.get('k') == 'cast' and hops < 4:
+        n = fn.sn(n.get('sub'))
+        hops += 1
+    if n is None or depth > 8:
+        return
+    if n.get('k') == 'binop' and n.get('op') in ('&&', '||'):
+        _leaves(fn, n['lhs'], out, depth + 1)
+        _leaves(fn, n['rhs'], out, depth + 1)
+    elif n.get('k') == 'unop' and n.get('op') == '!':
+        _leaves(fn, n['sub'], out, depth + 1)
+    elif n.get('k') == 'var' and n.get('vk') == 'local':
+        o = origin(fn, n['id'])
+        if o is not None and o['id'] != n['id']:
+            _leaves(fn, o['id'], out, depth + 1)
+        else:
+            out.append(n)
+    else:
+        out.append(n)
+
+
+def _assert_nodes(fn):
+    """Node ids belonging to the condition of an assert(): a conditional expression one arm of which is a noreturn call."""
+    out = set()
+    for n in fn.all_nodes():
+        if n.get('k') != 'condop':
+            continue
+        arms = [x for k in ('then', 'else') if isinstance(n.get(k), int) for x in fn.subtree(n[k])]
+        if any(fn.nodes[x].get('k') == 'call' and fn.nodes[x].get('q') in ('__assert_fail', 'abort', 'std::abort', 'std::terminate') for x in arms):
+            out.update(fn.subtree(n['cond']))
+    return out
+
+
+def _conditions_on_paths_to(fn, target):
+    """Leaf conditions of every branch that is evaluated on some path entry -> target; branches one of whose edges only
+    leads to a noreturn call (assert) are not decisions."""
+    pos = fn.positions()
+    if target not in pos:
+        return []
+    tb = pos[target][0]
+    preds = fn.preds()
+    can_reach = {tb}
+    work = [tb]
+    while work:
+        b = work.pop()
+        for p_ in preds.get(b, []):
+            if p_ not in can_reach:
+                can_reach.add(p_)
+                work.append(p_)
+    live_ = fn.reachable_blocks()
+
+    asserted = _assert_nodes(fn)
+    out = []
+    for b in can_reach & live_:
+        blk = fn.blocks[b]
+        succs = [x for x in blk['succs'] if x is not None]
+        if 'cond' not in blk or len(succs) < 2 or b == tb and False:
+            continue
+        if fn.strip(blk['cond']) in asserted or blk['cond'] in asserted:
+            continue
+        # sub-conditions of && / || are their own blocks; expanding the whole expression again only repeats them
+        _leaves(fn, blk['cond'], out)
+    seen, uniq = set(), []
+    for n in out:
+        if n['id'] not in seen:
+            seen.add(n['id'])
+            uniq.append(n)
+    return uniq
+
+
+def retrieval_rules(fb, R, M):
+    """G1: a member stays retrievable until the LAST relation needing it is completed: get_object() may answer "absent"
+    only because nothing is tracked under that id or because the object is not in the stash (invalid handle) -- never
+    because an individual (member, relation) entry carries the removed mark."""
+    pred_q = M.mark[1] if M.mark else None
+    mark_field = M.mark[2] if M.mark else None
+    subj = [f for f in fb.functions if f.cls == MDC and f.has_cfg and not f.is_lambda and f.kind == 'method' and f.retC.strip().endswith('*')
+            and any(n.get('k') == 'call' and n.get('u') in M.find_usrs for n in f.all_nodes())]
+    if not subj:
+        R.broken('%s: no lookup method returning an object pointer (get_object) found' % MDC)
+        return
+    for fn0 in _tops(subj):
+        def body(fn, R):
+            fr = _found_range(fn, M)
+            if fr is None:
+                R.broken('%s: no local initialised from the lookup' % fn.q)
+                return
+            rroot = ('var', fr[0], fr[1])
+            rets = [n for n in fn.all_nodes() if n.get('k') == 'return' and 'sub' in n and live(fn, n['id'])]
+            nulls = [r for r in rets if (fn.sn(r['sub']) or {}).get('null') or fn.const_value(r['sub']) == 0]
+            vals = [r for r in rets if r not in nulls]
+            bad, unknown = [], []
+            for r in nulls:
+                for c in _conditions_on_paths_to(fn, r['id']):
+                    sub = [fn.nodes[x] for x in fn.subtree(c['id'])]
+                    if any(x.get('q') == pred_q for x in sub if x.get('k') == 'call') or \
+                            any(x.get('k') == 'member' and x.get('field') and x.get('q') == mark_field for x in sub):
+                        bad.append((r, c))
+                        continue
+                    if c.get('k') == 'call' and c.get('q', '').rsplit('::', 1)[-1] == 'empty' and c.get('recv') is not None and fn.root_var(c['recv']) == rroot:
+                        continue
+                    if c.get('k') == 'call' and c.get('q') == STASH + '::handle_type::valid' and c.get('recv') is not None:
+                        o = origin(fn, c['recv'])
+                        if o is not None and o.get('k') == 'member' and o.get('field') and o.get('q', '').startswith(M.elem + '::') and root_through_refs(fn, o['id']) == rroot:
+                            continue
+                    unknown.append((r, c))
+            if unknown and not bad:
+                R.broken('%s: cannot classify the condition `%s` under which "absent" is answered' % (fn.q, fn.expr(unknown[0][1]['id'])[:80]))
+            R.check(not bad, 'G1-absent-only-when-untracked-or-unstored', fn.q + '#null-does-not-depend-on-per-entry-removal', (fn.loc(bad[0][1]['id']) if bad else fn.site),
+                    '"absent" is answered depending on the removed mark of ONE (member, relation) entry (`%s`): entries are marked one by one as '
+                    'relations complete, so a member shared by several relations becomes unretrievable for the later ones' % (
+                        fn.expr(bad[0][1]['id'])[:70] if bad else ''))
+            ok = bool(vals)
+            for r in vals:
+                gs = subtree_calls(fn, r['sub'], STASH + '::get')
+                ok = ok and len(gs) == 1
+                if ok:
+                    o = origin(fn, gs[0]['args'][0]) if gs[0].get('args') else None
+                    ok = o is not None and o.get('k') == 'member' and o.get('field') and o.get('q', '').startswith(M.elem + '::') and root_through_refs(fn, o['id']) == rroot
+            R.check(ok, 'G1-absent-only-when-untracked-or-unstored', fn.q + '#returns-the-stashed-object-of-the-found-range', fn.site,
+                    'the non-null answer must be the stash item of the object handle stored in the found range')
+        per_fn(fb, R, M, fn0, body)
+    # forwarding accessors
+    for fn in [f for f in fb.functions if f.cls == MD and f.has_cfg and f.kind == 'method' and f.retC.strip().endswith('*')]:
+        rets = [n for n in fn.all_nodes() if n.get('k') == 'return' and 'sub' in n]
+        ok = len(rets) == 1
+        if ok:
+            c = fn.sn(rets[0]['sub'])
+            hops = 0
+            while c is not None and c.get('k') == 'cast' and hops < 4:
+                c = fn.sn(c.get('sub'))
+                hops += 1
+            ok = c is not None and c.get('k') == 'call' and c.get('q') in {f.q for f in subj} and fn.root_var((c.get('args') or [None])[0]) == param_root(fn, 0)
+        R.check(ok and every_path_passes(fn, [rets[0]['id']]) is None, 'G1-absent-only-when-untracked-or-unstored', fn.q + '#forwards-the-lookup-unconditionally', fn.site,
+                '%s must return the base lookup of its id parameter, unconditionally' % fn.q)
+
+
 # ================================================================================================ driver
 
 GROUPS = [sorted_rules, track_rules, add_rules, remove_rules, second_pass_rules, first_pass_rules, consumer_rules, dispatch_rules,
-          listing_rules, counter_rules]
+          listing_rules, counter_rules, lost_update_rules, stash_rules, retrieval_rules]
 
 
 def all_rules(fb, R):
@@ -1471,6 +1847,9 @@ def run(ctx):
     R.expect('D1-member-database-dispatch', 6)
     R.expect('I1-released-relation-not-listed', 4)
     R.expect('C1-member-counter-ops', 6)
+    R.expect('L1-write-reaches-storage', 2)
+    R.expect('I2-stash-index-maintained', 3)
+    R.expect('G1-absent-only-when-untracked-or-unstored', 3)
 
 
 def _selftest_container(fb, R):
@@ -1478,7 +1857,12 @@ def _selftest_container(fb, R):
     container_rules(fb, R, 'c11pos::Unsorted', 'm_entries')
 
 
+def _selftest_lost_update(fb, R):
+    lost_update_check(fb, R, [f for f in fb.functions if f.has_cfg])
+
+
 SELFTESTS = [
+    ('L1-write-reaches-storage', 'c11_lost_update.cpp', _selftest_lost_update),
     ('S1-search-key-prefix-of-sort-key', 'c11_sorted.cpp', _selftest_container),
     ('S2-searched-container-is-sorted', 'c11_sorted.cpp', _selftest_container),
     ('S3-phase-partition', 'c11_sorted.cpp', _selftest_container),
